@@ -120,6 +120,9 @@ func (x *Exec) invoke(fr *Frame, ins ssa.Instruction, c *ssa.CallCommon, st *Sta
 			return v
 		}
 	}
+	if x.panicFn != nil && x.useMode == 0 && x.specDepth == 0 {
+		x.panicPoint(st, ins.Pos(), "dyncall:"+c.Method.Name(), nil)
+	}
 	x.note("dynamic call %s.%s: result arbitrary, no modelled state changed, no panic (assumed)", shortTypeString(c.Value.Type()), c.Method.Name())
 	return x.havocResult(st, "invoke_"+c.Method.Name(), c.Signature().Results())
 }
@@ -136,7 +139,12 @@ func (x *Exec) staticCall(fr *Frame, ins ssa.Instruction, fn *ssa.Function, bind
 		saved := x.specDepth
 		x.specDepth = 0
 		pre := st.clone()
+		if x.target.Panics != "" {
+			x.setupPanicMode(x.target, fn, args)
+			x.establishPanicPred(st, ins.Pos(), "entry")
+		}
 		res, nst := x.callFunction(fn, args, bindings, st)
+		x.panicFn = nil
 		x.specDepth = saved
 		if nst == nil {
 			st.guard = x.w.ts.False()
@@ -146,7 +154,12 @@ func (x *Exec) staticCall(fr *Frame, ins ssa.Instruction, fn *ssa.Function, bind
 		_ = pre
 		return packResults(res, nres)
 	}
-	if ct := x.eng.contractFor(fn); ct != nil && !(x.specDepth > 0 && len(ct.Ensures) == 0 && x.target != ct) && !(x.target != nil && x.target != ct && contains(x.target.Inline, ct.Name)) {
+	if x.panicFn != nil && x.useMode == 0 && x.specDepth == 0 {
+		if pc := x.eng.byFnPanic[fn]; pc != nil && pc != x.target && sameText(pc.Panics, x.target.Panics) {
+			// the callee may panic only in states satisfying the same predicate (its own panic-mode contract)
+			return x.useContract(fr, ins, pc, args, st)
+		}
+	} else if ct := x.eng.contractFor(fn); ct != nil && !(x.specDepth > 0 && len(ct.Ensures) == 0 && x.target != ct) && !(x.target != nil && x.target != ct && contains(x.target.Inline, ct.Name)) {
 		// (a safety-only contract says nothing about results: specification code
 		// that calls such a function sees its body instead)
 		if !(x.target == ct && x.curIsHarness() && x.useMode == 0) {
@@ -159,7 +172,12 @@ func (x *Exec) staticCall(fr *Frame, ins ssa.Instruction, fn *ssa.Function, bind
 		x.obls = append(x.obls, &Obligation{Name: shortFn(x.targetName()) + "/cover:pre" + x.caseTag, Kind: "cover", Pos: x.position(ins.Pos()),
 			Fn: x.targetName(), nAssume: len(x.assumes), goal: st.guard, IsCover: true})
 		pre := st.clone()
+		if ct.Panics != "" {
+			x.setupPanicMode(ct, fn, args)
+			x.establishPanicPred(st, ins.Pos(), "entry")
+		}
 		res, nst := x.callFunction(fn, args, bindings, st)
+		x.panicFn = nil
 		x.specDepth = saved
 		if nst == nil {
 			st.guard = x.w.ts.False()
@@ -192,6 +210,9 @@ func (x *Exec) staticCall(fr *Frame, ins ssa.Instruction, fn *ssa.Function, bind
 	// external
 	if v, ok := x.stdlib(fr, ins, fn, args, st); ok {
 		return v
+	}
+	if x.panicFn != nil && x.useMode == 0 && x.specDepth == 0 {
+		x.panicPoint(st, ins.Pos(), "call:"+fn.Name(), nil)
 	}
 	x.note("external %s: result arbitrary, no modelled state changed, no panic (assumed)", fn.String())
 	return x.havocResult(st, "ext_"+fn.Name(), fn.Signature.Results())
@@ -959,5 +980,51 @@ func (x *Exec) frameCheck(pre, post *State, ins ssa.Instruction) {
 		r := x.w.Fresh("frame_ref", SInt)
 		old := ts.And(x.w.intLe(ts.IntLit(0), r), x.w.intLe(r, pre.alloc))
 		x.oblige(post, "frame", n, ts.Implies(old, ts.Eq(ts.Select(a1, r), ts.Select(exp, r))), ins.Pos())
+	}
+}
+
+func sameText(a, b string) bool {
+	return strings.Join(strings.Fields(a), "") == strings.Join(strings.Fields(b), "")
+}
+
+// setupPanicMode: `panics pred(a, b)` names a spec function of the package
+// and, as arguments, parameters of the function under contract.
+func (x *Exec) setupPanicMode(ct *Contract, fn *ssa.Function, args []Value) {
+	txt := strings.TrimSpace(ct.Panics)
+	i := strings.Index(txt, "(")
+	if i < 0 || !strings.HasSuffix(txt, ")") {
+		unsup("panics clause must be pred(params...)")
+	}
+	name := strings.TrimSpace(txt[:i])
+	pf := fn.Pkg.Func(name)
+	if pf == nil {
+		unsup("panics clause: no function %s", name)
+	}
+	var pargs []Value
+	for _, a := range strings.Split(txt[i+1:len(txt)-1], ",") {
+		a = strings.TrimSpace(a)
+		found := false
+		for k, p := range ct.Params {
+			if p == a && k < len(args) {
+				pargs = append(pargs, args[k])
+				found = true
+			}
+		}
+		if !found {
+			for k, p := range fn.Params {
+				if p.Name() == a && k < len(args) {
+					pargs = append(pargs, args[k])
+					found = true
+					break
+				}
+			}
+		}
+		if !found {
+			unsup("panics clause: %s is not a parameter", a)
+		}
+	}
+	x.panicFn, x.panicArgs = pf, pargs
+	if x.panicKnown == nil {
+		x.panicKnown = map[int]bool{}
 	}
 }
